@@ -216,6 +216,11 @@ def replay_behaviour(tr, construct_route=True):
 
 
 def part_a(chk):
+    part_a_replay(chk, part_a_tlc(chk))
+
+
+def part_a_tlc(chk):
+    """TLC: explore the state machine, check its invariants, export every transition."""
     quick = chk.quick
     # (n_mos, uhf, elems, steps, objs, aufbau)
     runs = [(2, False, "ElemsLiH", 2, 2, False), (3, False, "ElemsLiH", 2, 2, quick), (2, True, "ElemsLiH", 2, 2, False),
@@ -239,7 +244,14 @@ def part_a(chk):
     import time
     t0 = time.time()
     res = tlc.run_many(jobs, max_parallel=8)
-    t_tlc = time.time() - t0
+    return runs, res, time.time() - t0
+
+
+def part_a_replay(chk, explored):
+    """Replay every exported behaviour on the implementation."""
+    import time
+    runs, res, t_tlc = explored
+    t0 = time.time() - t_tlc
     stats = {}
     n_tr = 0
     for r_, res_ in zip(runs, res):
@@ -392,12 +404,13 @@ ENCODINGS = [("JW", False), ("JW", True), ("BK", False), ("BK", True), ("JKMN", 
              ("scBK", True), ("scBK", False)]
 
 
-def qubit_artifacts(mol, mapping, utd):
-    """The code's qubit Hamiltonian, reference vector and basis-state encoder for one encoding (as the solvers build them)."""
+def qubit_artifacts(mol, mapping, utd, fop=None):
+    """The code's qubit Hamiltonian, reference vector and basis-state encoder for one encoding (as the solvers build them).
+    fop: a fermionic Hamiltonian obtained from the molecule through another public route (default: .fermionic_hamiltonian)."""
     from tangelo.toolboxes.qubit_mappings.mapping_transform import fermion_to_qubit_mapping, get_qubit_number
     from tangelo.toolboxes.qubit_mappings.statevector_mapping import get_vector, get_mapped_vector
     nso = mol.n_active_sos
-    qop = fermion_to_qubit_mapping(mol.fermionic_hamiltonian, mapping, n_spinorbitals=nso,
+    qop = fermion_to_qubit_mapping(mol.fermionic_hamiltonian if fop is None else fop, mapping, n_spinorbitals=nso,
                                    n_electrons=mol.n_active_electrons, up_then_down=utd, spin=mol.active_spin)
     nq = get_qubit_number(mapping, nso)
     with warnings.catch_warnings():
@@ -697,46 +710,123 @@ def chain(n, rng, lo=0.6, hi=1.4):
     return out
 
 
+def frozen_cells(mo_occ, uhf):
+    """Frozen-orbital selections by cell class for a reference with the given occupations (input selection only):
+    'occ' = lowest freezable occupied orbital, 'virt' = highest virtual, 'both'."""
+    if uhf:
+        oa, ob = [list(map(float, x)) for x in mo_occ]
+        n = len(oa)
+        cells = {"none": None, "occ": [[0], [0]]}
+        if oa[n - 1] == 0 and ob[n - 1] == 0:
+            cells["virt"] = [[n - 1], [n - 1]]
+            cells["both"] = [[0, n - 1], [0, n - 1]]
+        out = {}
+        for k, f in cells.items():
+            fa, fb = (f or [[], []])
+            na = sum(1 for i in range(n) if oa[i] > 0 and i not in fa)
+            nb = sum(1 for i in range(n) if ob[i] > 0 and i not in fb)
+            ma, mb = n - len(fa), n - len(fb)
+            if na + nb > 0 and (na < ma or nb < mb):
+                out[k] = f
+        return out
+    occ = list(map(float, mo_occ))
+    n = len(occ)
+    docc = [i for i in range(n) if occ[i] == 2]
+    virt = [i for i in range(n) if occ[i] == 0]
+    cells = {"none": None}
+    if docc:
+        cells["occ"] = [docc[0]]
+    if virt:
+        cells["virt"] = [virt[-1]]
+    if docc and virt:
+        cells["both"] = [docc[0], virt[-1]]
+    out = {}
+    for k, f in cells.items():
+        act = [i for i in range(n) if i not in (f or [])]
+        ne = sum(occ[i] for i in act)
+        if 0 < ne < 2 * len(act):
+            out[k] = f
+    return out
+
+
+SPIN_CLASS = {0: "closed", 1: "doublet", 2: "triplet", 3: "quartet", 4: "quintet"}
+
+
 def real_cases(chk, rng):
-    """(label, xyz, q, spin, basis, uhf, frozen, fci_reference) ; fci_reference: 'fci' (FCISolver on the molecule itself),
-    'fci-restricted-twin' (full-space FCI of the RHF/ROHF molecule at the same geometry: full CI does not depend on the
-    orbitals), 'ccsd-2e' (CCSD with the same frozen orbitals, exact for two active electrons)."""
+    """The molecule matrix {closed, doublet, triplet, quartet} x {no frozen, frozen occupied, frozen virtual, both} x
+    {RHF/ROHF, UHF} on H3, H4, H4+, LiH (minimal basis), plus per-spin / interior / larger-basis extras.
+    -> (label, xyz, q, spin, basis, uhf, frozen, fci_reference).  fci_reference:
+       'fci'                 FCISolver on the molecule itself (RHF/ROHF; CAS branch when orbitals are frozen)
+       'fci-restricted-twin' full-space FCI of the RHF/ROHF molecule at the same geometry and spin (full CI is orbital independent)
+       'ucasci'              PySCF UCASCI on the UHF mean field with the same frozen orbitals (FCISolver has no UHF support)
+       'ccsd-2e'             CCSDSolver with the same (per-spin) frozen orbitals, exact for two active electrons."""
+    from tangelo import SecondQuantizedMolecule
     quick = chk.quick
+    cases = []
+    n_geo = 1 if quick else 3
+    systems = [("H3", 3, 0, (1, 3)), ("H4", 4, 0, (0, 2) if quick else (0, 2, 4)), ("H4+", 4, 1, (1, 3)), ("LiH", 0, 0, (0, 2))]
+    for g in range(n_geo):
+        for name, nh, q, spins in systems:
+            if name == "LiH":
+                xyz = [("Li", (0., 0., 0.)), ("H", (0., 0., round(rng.uniform(1.3, 1.9), 6)))]
+            else:
+                xyz = chain(nh, rng)
+            for spin in spins:
+                for uhf in (False, True):
+                    try:
+                        probe = SecondQuantizedMolecule(xyz, q, spin, basis="sto-3g", uhf=uhf, frozen_orbitals=None)
+                    except Exception as e:
+                        if "converge" in str(e):
+                            chk.inconclusive += 1
+                            continue
+                        raise
+                    for cell, frozen in frozen_cells(probe.mo_occ, uhf).items():
+                        if quick and name == "LiH" and cell == "none":
+                            continue      # 12 qubits: thorough only (the unfrozen cells are represented by H3 / H4 / H4+)
+                        ref = "fci" if not uhf else ("fci-restricted-twin" if frozen is None else "ucasci")
+                        cases.append(("%s-%s-%s-%s-g%d" % (name, SPIN_CLASS[spin], "uhf" if uhf else "rohf", cell, g),
+                                      xyz, q, spin, "sto-3g", uhf, frozen, ref))
+    # extras: larger basis, interior / non-contiguous lists, per-spin lists (UHF), frozen_core keyword
     tri = [("H", (0., 0., 0.)), ("H", (round(rng.uniform(0.8, 1.1), 6), 0., 0.)),
            ("H", (round(rng.uniform(0.3, 0.6), 6), round(rng.uniform(0.7, 1.0), 6), 0.))]
     lih = [("Li", (0., 0., 0.)), ("H", (0., 0., round(rng.uniform(1.3, 1.9), 6)))]
-    cases = [
-        ("H2", chain(2, rng), 0, 0, "sto-3g", False, None, "fci"),
-        ("H2-631g-frozen-virtuals", chain(2, rng), 0, 0, "6-31g", False, [2], "fci"),
-        ("H2-uhf", chain(2, rng, 1.5, 2.2), 0, 0, "sto-3g", True, None, "fci-restricted-twin"),
-        ("H4", chain(4, rng), 0, 0, "sto-3g", False, None, "fci"),
-        ("H4-frozen-0-3", chain(4, rng), 0, 0, "sto-3g", False, [0, 3], "fci"),
-        ("H4+", chain(4, rng), 1, 1, "sto-3g", False, None, "fci"),
-        ("H4+-uhf", chain(4, rng), 1, 1, "sto-3g", True, None, "fci-restricted-twin"),
-        ("H3+", tri, 1, 0, "sto-3g", False, None, "fci"),
+    cases += [
+        ("H2-631g-frozen-interior-virtual", chain(2, rng), 0, 0, "6-31g", False, [2], "fci"),
+        ("H2-uhf-stretched", chain(2, rng, 1.5, 2.2), 0, 0, "sto-3g", True, None, "fci-restricted-twin"),
         ("H3+-uhf-perspin-virtuals", tri, 1, 0, "sto-3g", True, [[2], [1]], "ccsd-2e"),
-        ("LiH-frozen-core", lih, 0, 0, "sto-3g", False, "frozen_core", "fci"),
+        ("LiH-frozen-core-keyword", lih, 0, 0, "sto-3g", False, "frozen_core", "fci"),
         ("LiH-frozen-0-3-5", lih, 0, 0, "sto-3g", False, [0, 3, 5], "fci"),
-        ("LiH-uhf-frozen-core", lih, 0, 0, "sto-3g", True, 1, "ccsd-2e"),
+        ("LiH-triplet-frozen-0-4", lih, 0, 2, "sto-3g", False, [0, 4], "fci"),
+        ("LiH-uhf-int-1", lih, 0, 0, "sto-3g", True, 1, "ccsd-2e"),
     ]
     if not quick:
-        for k in range(3):
-            cases += [("H4-g%d" % k, chain(4, rng), 0, 0, "sto-3g", False, None, "fci"),
-                      ("H4-frozen-1-g%d" % k, chain(4, rng), 0, 0, "sto-3g", False, [1], "fci"),
-                      ("H4+-frozen-3-g%d" % k, chain(4, rng), 1, 1, "sto-3g", False, [3], "fci"),
-                      ("H3-doublet-g%d" % k, chain(3, rng), 0, 1, "sto-3g", False, None, "fci"),
-                      ("H3-uhf-g%d" % k, chain(3, rng), 0, 1, "sto-3g", True, None, "fci-restricted-twin"),
-                      ("H2-g%d" % k, chain(2, rng, 0.4, 2.5), 0, 0, "sto-3g", False, None, "fci"),
-                      ("H2-631g-g%d" % k, chain(2, rng), 0, 0, "6-31g", False, None, "fci")]
+        for k in range(2):
+            cases += [("H2-g%d" % k, chain(2, rng, 0.4, 2.5), 0, 0, "sto-3g", False, None, "fci"),
+                      ("H2-631g-g%d" % k, chain(2, rng), 0, 0, "6-31g", False, None, "fci"),
+                      ("H4-triplet-frozen-0-3-g%d" % k, chain(4, rng), 0, 2, "sto-3g", False, [0, 3], "fci"),
+                      ("H4-frozen-1-g%d" % k, chain(4, rng), 0, 0, "sto-3g", False, [1], "fci")]
         lih2 = [("Li", (0., 0., 0.)), ("H", (0., 0., round(rng.uniform(1.3, 1.9), 6)))]
         cases += [("LiH-frozen-0-4", lih2, 0, 0, "sto-3g", False, [0, 4], "fci"),
                   ("LiH+-rohf-frozen-core", lih2, 1, 1, "sto-3g", False, 1, "fci"),
                   ("LiH-uhf-perspin", lih2, 0, 0, "sto-3g", True, [[0, 5], [0, 4]], "ccsd-2e")]
-        a = rng.uniform(0.9, 1.05)
+        a_ = rng.uniform(0.9, 1.05)
         th = rng.uniform(1.7, 1.95)
-        h2o = [("O", (0., 0., 0.)), ("H", (round(a, 6), 0., 0.)), ("H", (round(a * np.cos(th), 6), round(a * np.sin(th), 6), 0.))]
+        h2o = [("O", (0., 0., 0.)), ("H", (round(a_, 6), 0., 0.)), ("H", (round(a_ * np.cos(th), 6), round(a_ * np.sin(th), 6), 0.))]
         cases += [("H2O-frozen-core-and-virtual", h2o, 0, 0, "sto-3g", False, [0, 1, 6], "fci")]
     return cases
+
+
+def ucasci_energy(mol):
+    """PySCF UCASCI on the UHF mean field with the molecule's frozen orbitals (classical reference, trusted)."""
+    from pyscf import mcscf
+    na, nb = mol.n_active_ab_electrons
+    nm = mol.n_active_mos
+    if nm[0] != nm[1]:
+        raise ValueError("UCASCI reference needs equal alpha/beta active spaces")
+    cas = mcscf.UCASCI(mol.mean_field, nm[0], (na, nb))
+    cas.verbose = 0
+    mo = cas.sort_mo([[i + 1 for i in sorted(mol.active_mos[0])], [i + 1 for i in sorted(mol.active_mos[1])]])
+    return float(cas.kernel(mo)[0])
 
 
 def random_rotation(n, rs):
@@ -744,26 +834,115 @@ def random_rotation(n, rs):
     return q * np.sign(np.diag(r))
 
 
-def rotate_active(mol, rs):
-    """mo_coeff <- mo_coeff with a random orthogonal rotation among the active orbitals (per spin for UHF)."""
+def rotated_coeff(mol, rs):
+    """A copy of the current MO coefficients with a random orthogonal rotation among the active orbitals (per spin for UHF)."""
     if mol.uhf:
         new = []
-        for s in range(2):
-            c = np.array(mol.mo_coeff[s], dtype=float).copy()
-            act = list(mol.active_mos[s])
+        for s_ in range(2):
+            c = np.array(mol.mo_coeff[s_], dtype=float).copy()
+            act = list(mol.active_mos[s_])
             c[:, act] = c[:, act] @ random_rotation(len(act), rs)
             new.append(c)
-        mol.mo_coeff = new
-    else:
-        c = np.array(mol.mo_coeff, dtype=float).copy()
-        act = list(mol.active_mos)
-        c[:, act] = c[:, act] @ random_rotation(len(act), rs)
-        mol.mo_coeff = c
+        return new
+    c = np.array(mol.mo_coeff, dtype=float).copy()
+    act = list(mol.active_mos)
+    c[:, act] = c[:, act] @ random_rotation(len(act), rs)
+    return c
 
 
-def struct_jobs(mol, mapping, utd, jobs, meta, tag):
+def coeff_snapshot(mol):
+    """Every place the molecule keeps its MO coefficients (solver and PySCF mean field)."""
+    out = [np.array(x, dtype=float).copy() for x in (mol.solver.mo_coeff if mol.uhf else [mol.solver.mo_coeff])]
+    mf = getattr(mol, "mean_field", None)
+    if mf is not None:
+        out += [np.array(x, dtype=float).copy() for x in (mf.mo_coeff if mol.uhf else [mf.mo_coeff])]
+    return out
+
+
+def flat_integrals(res):
+    """(core, one-body, two-body) of either reference type -> list of arrays."""
+    core, one, two = res
+    arrs = [np.array([float(core)])]
+    for x in (one, two):
+        if isinstance(x, (list, tuple)):
+            arrs += [np.asarray(a, dtype=float) for a in x]
+        else:
+            arrs.append(np.asarray(x, dtype=float))
+    return arrs
+
+
+def max_diff(a, b):
+    if len(a) != len(b) or any(x.shape != y.shape for x, y in zip(a, b)):
+        return float("inf")
+    return max([float(np.max(np.abs(x - y))) if x.size else 0. for x, y in zip(a, b)] + [0.])
+
+
+def fop_diff(f, g):
+    keys = set(f.terms) | set(g.terms)
+    return max([abs(f.terms.get(k, 0.) - g.terms.get(k, 0.)) for k in keys] + [0.])
+
+
+def argument_routes(mol):
+    """Every public entry point that accepts explicit MO coefficients: name -> (call with argument, call without)."""
+    r = {"get_active_space_integrals": (lambda c: flat_integrals(mol.get_active_space_integrals(c)), lambda: flat_integrals(mol.get_active_space_integrals())),
+         "get_full_space_integrals": (lambda c: flat_integrals(mol.get_full_space_integrals(c)), lambda: flat_integrals(mol.get_full_space_integrals())),
+         "get_integrals(fold_frozen=True)": (lambda c: flat_integrals(mol.get_integrals(c, True)), lambda: flat_integrals(mol.get_integrals(None, True))),
+         "get_integrals(fold_frozen=False)": (lambda c: flat_integrals(mol.get_integrals(mo_coeff=c, fold_frozen=False)), lambda: flat_integrals(mol.get_integrals(fold_frozen=False))),
+         "solver.get_integrals": (lambda c: flat_integrals(mol.solver.get_integrals(mol, c)), lambda: flat_integrals(mol.solver.get_integrals(mol)))}
+    if mol.uhf and hasattr(mol.solver, "compute_uhf_integrals"):
+        r["solver.compute_uhf_integrals"] = (lambda c: flat_integrals((0.,) + tuple(mol.solver.compute_uhf_integrals(mol, c))),
+                                             lambda: flat_integrals((0.,) + tuple(mol.solver.compute_uhf_integrals(mol, mol.solver.mo_coeff))))
+    return r
+
+
+def check_argument_route(chk, mol, cnew, tag, case):
+    """Predicate: passing MO coefficients as ARGUMENT gives what setting them through the mo_coeff setter and calling
+    without argument gives (1e-10), and leaves the molecule's own coefficients untouched.  Leaves the molecule with
+    cnew set (setter).  -> (fermionic Hamiltonian of the argument route, number of comparisons)."""
+    routes = argument_routes(mol)
+    before = coeff_snapshot(mol)
+    arg = {}
+    for name, (with_arg, _) in routes.items():
+        try:
+            arg[name] = with_arg(copy.deepcopy(cnew))
+        except Exception as e:
+            chk.violation("real:argument-route:%s:%s:exception" % (name, tag), "%s: %s(mo_coeff=...) raised %s: %s" % (case["info"]["label"], name, type(e).__name__, e), case)
+            continue
+        if max_diff(coeff_snapshot(mol), before) > 0:
+            chk.violation("real:argument-route:%s:%s:changed-mo_coeff" % (name, tag),
+                          "%s: %s(mo_coeff=...) modified the molecule's own MO coefficients" % (case["info"]["label"], name), case)
+            mol.mo_coeff = [b.copy() for b in before[:2]] if mol.uhf else before[0].copy()
+    fop_arg = None
+    try:
+        fop_arg = mol._get_fermionic_hamiltonian(copy.deepcopy(cnew))
+        if max_diff(coeff_snapshot(mol), before) > 0:
+            chk.violation("real:argument-route:_get_fermionic_hamiltonian:%s:changed-mo_coeff" % tag, case["info"]["label"], case)
+    except Exception as e:
+        chk.violation("real:argument-route:_get_fermionic_hamiltonian:%s:exception" % tag, "%s: %s: %s" % (case["info"]["label"], type(e).__name__, e), case)
+    mol.mo_coeff = copy.deepcopy(cnew)
+    n = 0
+    for name, (_, without) in routes.items():
+        if name not in arg:
+            continue
+        d = max_diff(arg[name], without())
+        n += 1
+        if d > 1e-10:
+            chk.violation("real:argument-route:%s:%s:differs-from-setter-route" % (name, tag),
+                          "%s: %s(mo_coeff=C) differs from setting mo_coeff = C and calling without argument (max |diff| %.3g)"
+                          % (case["info"]["label"], name, d), case)
+    if fop_arg is not None:
+        d = fop_diff(fop_arg, mol.fermionic_hamiltonian)
+        n += 1
+        if d > 1e-10:
+            chk.violation("real:argument-route:_get_fermionic_hamiltonian:%s:differs-from-setter-route" % tag,
+                          "%s: _get_fermionic_hamiltonian(mo_coeff=C) differs from fermionic_hamiltonian after mo_coeff = C (max |diff| %.3g)"
+                          % (case["info"]["label"], d), case)
+    return fop_arg, n
+
+
+def struct_jobs(mol, mapping, utd, jobs, meta, tag, fop=None):
     """Record the words of the code's qubit Hamiltonian, its reference vector and its sector basis; -> float coefficients."""
-    qop, nq, ref, encode = qubit_artifacts(mol, mapping, utd)
+    qop, nq, ref, encode = qubit_artifacts(mol, mapping, utd, fop)
     terms = [(t, c) for t, c in qop.terms.items()]
     words = []
     for t, _ in terms:
@@ -828,6 +1007,8 @@ def real_record(chk, cases, rs, only):
                 e_fci = FCISolver(mol).simulate()
             elif refkind == "fci-restricted-twin":
                 e_fci = FCISolver(SecondQuantizedMolecule(xyz, q, spin, basis=basis, uhf=False, frozen_orbitals=None)).simulate()
+            elif refkind == "ucasci":
+                e_fci = ucasci_energy(mol)
             else:
                 e_fci = CCSDSolver(mol).simulate()
         except Exception as e:
@@ -839,7 +1020,7 @@ def real_record(chk, cases, rs, only):
         nso = mol.n_active_sos
         encs = [e for e in ENCODINGS if not (e[0] == "scBK" and nso < 4)]
         if quick or nso > 8:
-            encs = [encs[(ci + k) % len(encs)] for k in ((0, 3) if nso <= 8 else (0,))]
+            encs = [encs[(ci + k) % len(encs)] for k in ((0, 3) if nso < 8 else (0,))]
         if only:
             encs = only
         rec = {"info": info, "mol": mol, "e_fci": float(e_fci), "e_mf": float(mol.mf_energy), "runs": []}
@@ -847,18 +1028,26 @@ def real_record(chk, cases, rs, only):
             ids, coefs, dim = struct_jobs(mol, mapping, utd, jobs, meta, (ci, mapping, utd, "hf"))
             rec["runs"].append({"mapping": mapping, "utd": utd, "ids": ids, "coefs": coefs, "dim": dim, "rot": False})
         recs.append(rec)
-    # rotated orbitals (after all unrotated artefacts have been recorded)
+    # rotated orbitals (after all unrotated artefacts have been recorded): argument route first, then the setter
     for ci, rec in enumerate(recs):
         mol = rec["mol"]
+        info = rec["info"]
         nso = mol.n_active_sos
         encs = [e for e in ENCODINGS if not (e[0] == "scBK" and nso < 4)]
         mapping, utd = only[0] if only else encs[(ci + 1) % len(encs)]
+        tag = "%s:%s" % ("uhf" if info["uhf"] else ("rohf" if info["spin"] else "rhf"), "full" if info["frozen"] is None else "frozen")
+        case = {"kind": "real", "info": info, "mapping": mapping, "utd": utd}
         try:
-            rotate_active(mol, rs)
+            cnew = rotated_coeff(mol, rs)
+            fop_arg, ncmp = check_argument_route(chk, mol, cnew, tag, case)
+            rec["arg_comparisons"] = ncmp
             ids, coefs, dim = struct_jobs(mol, mapping, utd, jobs, meta, (ci, mapping, utd, "rot"))
-            rec["runs"].append({"mapping": mapping, "utd": utd, "ids": ids, "coefs": coefs, "dim": dim, "rot": True})
+            rec["runs"].append({"mapping": mapping, "utd": utd, "ids": ids, "coefs": coefs, "dim": dim, "rot": "setter"})
+            if fop_arg is not None and (nso <= 8 or not quick):
+                ids, coefs, dim = struct_jobs(mol, mapping, utd, jobs, meta, (ci, mapping, utd, "arg"), fop_arg)
+                rec["runs"].append({"mapping": mapping, "utd": utd, "ids": ids, "coefs": coefs, "dim": dim, "rot": "argument"})
         except Exception as e:
-            chk.violation("real:rotation:exception:%s" % type(e).__name__, "%s: %s" % (rec["info"]["label"], e), {"kind": "real", "info": rec["info"]})
+            chk.violation("real:rotation:exception:%s" % type(e).__name__, "%s: %s" % (info["label"], e), case)
     return jobs, recs
 
 
@@ -912,11 +1101,13 @@ def real_evaluate(chk, recs, judged):
                 worst["rot"] = max(worst["rot"], d)
                 n_rot += 1
                 if d > 1e-7:
-                    chk.violation("real:%s:%s:rotation-invariance:%s" % (ref, frz, enc),
-                                  "%s: lowest sector eigenvalue %.10f after a random active-orbital rotation, %.10f before"
-                                  % (info["label"], e0, rec.get("e0", rec["e_fci"])), case)
+                    chk.violation("real:%s:%s:rotation-invariance:%s-route:%s" % (ref, frz, run_["rot"], enc),
+                                  "%s: lowest sector eigenvalue %.10f after a random active-orbital rotation (%s route), %.10f before"
+                                  % (info["label"], e0, run_["rot"], rec.get("e0", rec["e_fci"])), case)
     chk.part("D_numeric_tail_NOT_model_checked", molecules=len(recs), mean_field_contractions=n_ref, fci_comparisons=n_fci,
-             rotation_comparisons=n_rot, structure_constants_from_tlc=n_struct,
+             rotation_comparisons=n_rot, argument_vs_setter_comparisons=sum(r.get("arg_comparisons", 0) for r in recs),
+             cells=sorted({"%s/%s/%s" % ("uhf" if r["info"]["uhf"] else "rohf", SPIN_CLASS.get(r["info"]["spin"], r["info"]["spin"]),
+                                         "none" if r["info"]["frozen"] is None else "frozen") for r in recs}), structure_constants_from_tlc=n_struct,
              worst_abs_deviation={k: float("%.3g" % v) for k, v in worst.items()},
              note="TLC supplies <v|P_j|v> and P_j|e_b> = i^p|e_x> exactly; coefficients are the code's floats; eigenvalues by LAPACK; "
                   "mean-field / FCI / CCSD references by PySCF. Tolerances 1e-8 (mean field) and 1e-7 (eigenvalues).")
@@ -929,6 +1120,13 @@ def run(chk):
     import threading
     import time
     walls, errs, box = {}, [], {}
+    lock = threading.Lock()
+    plain_violation = chk.violation
+
+    def locked_violation(*a, **k):          # part D records violations from its own thread
+        with lock:
+            return plain_violation(*a, **k)
+    chk.violation = locked_violation
 
     def timed(name, fn):
         def go():
@@ -940,18 +1138,26 @@ def run(chk):
             walls[name] = round(time.time() - t0, 1)
         return go
 
+    # schedule: B (pure TLC) and A's TLC exploration run in threads while the main thread records part D with PySCF;
+    # then D's structure jobs run in a thread while the main thread replays A and records / judges C.
+    def start(name, fn):
+        t = threading.Thread(target=timed(name, fn))
+        t.start()
+        return t
+
     threads = []
-    if "B" in parts:                        # pure TLC: runs beside part A
-        threads.append(threading.Thread(target=timed("B", lambda: part_b(chk))))
-    if "D" in parts:                        # record with PySCF now, let TLC compute the structure constants beside A and C
+    if "B" in parts:
+        threads.append(start("B", lambda: part_b(chk)))
+    ta = start("A_tlc", lambda: part_a_tlc(chk)) if "A" in parts else None
+    if "D" in parts:
         t0 = time.time()
         djobs, drecs = real_record(chk, real_cases(chk, random.Random(chk.seed + 1)), np.random.RandomState(chk.seed + 4), None)
         walls["D_record"] = round(time.time() - t0, 1)
-        threads.append(threading.Thread(target=timed("D_tlc", lambda: real_judge(djobs, "c04/d", 4))))
-    for t in threads:
-        t.start()
-    if "A" in parts:
-        timed("A", lambda: part_a(chk))()
+        threads.append(start("D_tlc", lambda: real_judge(djobs, "c04/d", 4)))
+    if ta is not None:
+        ta.join()
+        if not errs:
+            timed("A_replay", lambda: part_a_replay(chk, box["A_tlc"]))()
     if "C" in parts and not errs:
         timed("C", lambda: part_c(chk, rng))()
     for t in threads:
@@ -1014,7 +1220,10 @@ def replay(chk, rec):
                  np.random.RandomState(chk.seed + 4), only, "c04/replay_d")
         for v in c2.violations:
             print("violation:", v[0], v[1])
-        return not c2.violations
+        keys = [v[0] for v in c2.violations]
+        if rec.get("key") and rec["key"] not in keys and keys:
+            print("(the recorded key %s is not reproduced; the violations above belong to other records / known findings)" % rec["key"])
+        return rec.get("key") not in keys if rec.get("key") else not keys
     print(rec)
     return False
 
